@@ -246,6 +246,33 @@ def _passes_through_code_under_test(e):
     return False
 
 
+def _callee_is_code_under_test(e):
+    """``f() got multiple values for argument 'x'`` and the like name the callee.  When that callee is itself a function of the repository (extracted or
+    inlined into the unit: compiled under its real file name) the mismatch is between two pieces of the code under verification - a behaviour of the
+    code for the arguments the unit passed (e.g. a helper whose own parameter names collide with the keyword arguments of the user's call), not a
+    disagreement with a sidecar stub."""
+    from .z3env import REPO_SRC
+
+    m = str(e).split("(", 1)[0].strip()
+    name = m.rsplit(".", 1)[-1]
+    if not name.isidentifier():
+        return False
+    tb = e.__traceback__
+    last = None
+    while tb is not None:
+        last = tb
+        tb = tb.tb_next
+    if last is None:
+        return False
+    fr = last.tb_frame
+    for scope in (fr.f_locals, fr.f_globals):
+        o = scope.get(name)
+        code = getattr(getattr(o, "__wrapped__", o), "__code__", None)
+        if code is not None:
+            return code.co_filename.startswith(REPO_SRC)
+    return False
+
+
 def no_contract_applies(e):
     """Exceptions that mean 'the code uses the sidecar's stubs / environment in a way no contract describes' - never a verdict about the code:
     a missing global of the extracted code, an attribute a sidecar stub does not model, a stub called with another signature, a name of the
@@ -259,7 +286,7 @@ def no_contract_applies(e):
         return msg
     if type(e) is TypeError and _raised_in_code_under_test(e) and any(w in str(e) for w in (
             "unexpected keyword argument", "required positional argument", "required keyword-only argument", "positional arguments but", "positional argument but",
-            "multiple values for argument")):
+            "multiple values for argument")) and not _callee_is_code_under_test(e):
         return msg
     if type(e) is TypeError and _raised_in_code_under_test(e) and _protocol_missing_on_sidecar_object(e):
         return msg
